@@ -128,3 +128,33 @@ Proof. reflexivity. Qed.
 (* ---- fill.rs: remap_t_in_range (C07), exact arithmetic *)
 Lemma src_remap_t_in_range_is_model val s e : src_remap_t_in_range val s e = Model.Sources.remap_t_in_range val s e.
 Proof. reflexivity. Qed.
+
+(* ---- quadratic extrema and ranges (C11) *)
+Lemma src_quad_x_maximum_t_is_model c : src_quad_x_maximum_t c = q_maximum_t (px (q_from c)) (px (q_ctrl c)) (px (q_to c)).
+Proof. reflexivity. Qed.
+Lemma src_quad_x_minimum_t_is_model c : src_quad_x_minimum_t c = q_minimum_t (px (q_from c)) (px (q_ctrl c)) (px (q_to c)).
+Proof. reflexivity. Qed.
+Lemma src_quad_y_maximum_t_is_model c : src_quad_y_maximum_t c = q_maximum_t (py (q_from c)) (py (q_ctrl c)) (py (q_to c)).
+Proof. reflexivity. Qed.
+Lemma src_quad_y_minimum_t_is_model c : src_quad_y_minimum_t c = q_minimum_t (py (q_from c)) (py (q_ctrl c)) (py (q_to c)).
+Proof. reflexivity. Qed.
+Lemma src_quad_bounding_range_x_is_model c : src_quad_bounding_range_x c = q_bounding_range_x c.
+Proof. reflexivity. Qed.
+Lemma src_quad_bounding_range_y_is_model c : src_quad_bounding_range_y c = q_bounding_range_y c.
+Proof. reflexivity. Qed.
+Lemma src_quad_fast_bounding_range_x_is_model c :
+  src_quad_fast_bounding_range_x c = q_fast_bounding_range (px (q_from c)) (px (q_ctrl c)) (px (q_to c)).
+Proof. reflexivity. Qed.
+Lemma src_quad_fast_bounding_range_y_is_model c :
+  src_quad_fast_bounding_range_y c = q_fast_bounding_range (py (q_from c)) (py (q_ctrl c)) (py (q_to c)).
+Proof. reflexivity. Qed.
+
+Theorem src_quad_extrema_are_model : forall c,
+  src_quad_x_maximum_t c = q_maximum_t (px (q_from c)) (px (q_ctrl c)) (px (q_to c)) /\
+  src_quad_x_minimum_t c = q_minimum_t (px (q_from c)) (px (q_ctrl c)) (px (q_to c)) /\
+  src_quad_y_maximum_t c = q_maximum_t (py (q_from c)) (py (q_ctrl c)) (py (q_to c)) /\
+  src_quad_y_minimum_t c = q_minimum_t (py (q_from c)) (py (q_ctrl c)) (py (q_to c)) /\
+  src_quad_bounding_range_x c = q_bounding_range_x c /\ src_quad_bounding_range_y c = q_bounding_range_y c /\
+  src_quad_fast_bounding_range_x c = q_fast_bounding_range (px (q_from c)) (px (q_ctrl c)) (px (q_to c)) /\
+  src_quad_fast_bounding_range_y c = q_fast_bounding_range (py (q_from c)) (py (q_ctrl c)) (py (q_to c)).
+Proof. intro c. repeat split; reflexivity. Qed.
